@@ -102,6 +102,9 @@ func VerifC08Close(v *verifrt.T) {
 	v.Assert(e.ps.OnSubscribe(c, []byte(e.rw+"/will/")) == nil, "C08.env.watcher-subscribed")
 	bssid := message.Ssid{7, v.U32("b", 0), v.U32("b", 1)}
 	e.ps.Subscribe(b, &event.Subscription{Conn: b.luid, Ssid: bssid, Channel: []byte("b/")})
+	// A never sends SUBSCRIBE / PUBLISH on a real channel in this entry (its subscriptions are
+	// made at the index level or by a link), so it may never have been counted for usage
+	a.tracked = uint32(v.Choice(2, "tracked"))
 	willFlag := v.Bool("willflag")
 	// the will channel may be a wildcard pattern under the watched channel: nothing can be
 	// published to a pattern, so such a will never fires
